@@ -35,7 +35,12 @@ func runPipeTrace(t *Trace, want string, clk *taskClock) (res *Result) {
 	px.spec.Target = "wrap"
 	px.setup()
 	dx.setup()
-	if px.bc.WindowSize != dx.ws {
+	if t.D.WindowSize == 0 && t.P.WindowSize == 0 {
+		// both sides left the window to its default: the pairing the module's
+		// own defaults promise; the model judges well-formedness by the
+		// parser's window, not by what the decoder made of its configuration
+		dx.ws = px.bc.WindowSize
+	} else if px.bc.WindowSize != dx.ws {
 		dx.abort("trace pairs different window sizes")
 	}
 	if px.bc.BlockSize > px.bc.WindowSize {
